@@ -857,11 +857,15 @@ class NonMementoFunctionHashRule(HashRule):
         obj: Callable,
         first_level: bool,
     ):
+        # A lambda has no name of its own ("<lambda>"): several of them used by one function
+        # would share a key and all but one, picked by set order, would be left out of the
+        # version. Tell them apart by the symbol they are reached through.
+        qualname = obj.__qualname__
+        if qualname.endswith("<lambda>"):
+            qualname += "@" + symbol
         # noinspection PyUnresolvedReferences
         super().__init__(
-            key="Function;{};{}".format(
-                parent_symbol, obj.__module__ + ":" + obj.__qualname__
-            ),
+            key="Function;{};{}".format(parent_symbol, obj.__module__ + ":" + qualname),
             parent_symbol=parent_symbol,
             symbol=symbol,
             first_level=first_level,
